@@ -210,6 +210,24 @@ func (c *Conn) currentWireConn() *wire.ClientConn {
 	return c.wireConn
 }
 
+// waitForLiveWireConn waits until the connection is connected and returns the wire connection in use
+// together with the reconnect count it belongs to. Both are read under the lock reconnect holds
+// while it replaces them, and only while the status still is Connected.
+func (c *Conn) waitForLiveWireConn(ctx context.Context) (*wire.ClientConn, uint64, error) {
+	for {
+		if err := c.state.WaitUntilOrClosed(ctx, connStatusConnected); err != nil {
+			return nil, 0, err
+		}
+		c.wireConnMu.Lock()
+		connected := c.state.Is(connStatusConnected)
+		wireConn, generation := c.wireConn, c.state.Reconnects()
+		c.wireConnMu.Unlock()
+		if connected {
+			return wireConn, generation, nil
+		}
+	}
+}
+
 func (c *Conn) isClosed() bool {
 	return c.state.Is(connStatusClosed)
 }
@@ -387,14 +405,12 @@ func (c *Conn) OpenUpstream(ctx context.Context, sessionID string, opts ...Upstr
 				if c.isClosed() {
 					return
 				}
-				if err := c.state.WaitUntilOrClosed(ctx, connStatusConnected); err != nil {
+				wireConn, generation, err := c.waitForLiveWireConn(ctx)
+				if err != nil {
 					u.logger.Errorf(ctx, "failed to wait state in resume upstream: %+v", err)
 					return
 				}
 
-				c.wireConnMu.Lock()
-				wireConn, generation := c.wireConn, c.state.Reconnects()
-				c.wireConnMu.Unlock()
 				if err := u.resume(wireConn, generation); err != nil {
 					u.logger.Errorf(ctx, "failed to resume upstream: %+v", err)
 					return
@@ -552,12 +568,13 @@ func (c *Conn) OpenDownstream(ctx context.Context, filters []*message.Downstream
 					return
 				}
 				c.logger.Infof(ctx, "Wait until connected... downstreamID:[%s]", down.ID)
-				if err := c.state.WaitUntilOrClosed(ctx, connStatusConnected); err != nil {
+				wireConn, generation, err := c.waitForLiveWireConn(ctx)
+				if err != nil {
 					down.logger.Errorf(ctx, "Failed to wait state in resume downstream: %+v", err)
 					return
 				}
 
-				if err := down.resume(c, c.state.Reconnects()); err != nil {
+				if err := down.resume(c, wireConn, generation); err != nil {
 					down.logger.Errorf(ctx, "Failed to resume downstream: %+v", err)
 					return
 				}
